@@ -237,7 +237,11 @@ def single_pass_subtract(facts):
     for pat, fn in sorted(fs.items()):
         if fn["name"] != "subtract_and_keep_positive_only":
             continue
-        loops = [s for s in stmts_of(fn["body"]) if s.get("k") == "For" and any(x.get("k") == "Call" and x.get("cname") == "hash_delete" for x in _nodes(s))]
+        # statement-level calls of private void helpers are seen through (the scan body may have been extracted into one)
+        from astu import inlined_body
+        by_pat = {f["pat"]: f for f in fs.values()}
+        body = inlined_body(fn, by_pat, keep=("hash_delete",))
+        loops = [s for s in stmts_of(body) if s.get("k") == "For" and any(x.get("k") == "Call" and x.get("cname") == "hash_delete" for x in _nodes(s))]
         if len(loops) < 1:
             out.append(ob("fi.single-pass", "reverse_purge_hash_map::subtract_and_keep_positive_only:loops", fn["pat"], "unrecognised", "scan loops not found", fn["qname"]))
             continue
@@ -247,7 +251,8 @@ def single_pass_subtract(facts):
             dels = []
             walk(lp["b"], lambda n: dels.append(n) if n.get("k") == "Call" and n.get("cname") == "hash_delete" else None)
             cmps = []
-            walk(lp["b"], lambda n: cmps.append(n) if n.get("k") == "Bin" and n.get("op") in ("<=", "<", ">", ">=") and "amount" in txt(n) else None)
+            amount = fn["params"][0]["d"] if fn.get("params") else None
+            walk(lp["b"], lambda n: cmps.append(n) if n.get("k") == "Bin" and n.get("op") in ("<=", "<", ">", ">=") and any(x.get("k") == "Ref" and x.get("d") == amount for x in _nodes(n)) else None)
             key = "reverse_purge_hash_map::subtract_and_keep_positive_only:scan#%d:one-visit-per-slot" % j
             ok = not nested and len(dels) == 1 and len(cmps) == 1
             out.append(ob("fi.single-pass", key, lp["loc"], "discharged" if ok else "violated", "each visited slot is compared with the purge amount once and then deleted or reduced" if ok else "the scan body has %d nested loop(s), %d hash_delete call(s) and %d comparison(s) with `amount`: a slot refilled by hash_delete() is examined again although its new occupant already lost `amount` - entries with counter in (amount, 2 * amount] are evicted and their upper bound falls below their true weight" % (len(nested), len(dels), len(cmps)), fn["qname"]))
